@@ -1385,6 +1385,39 @@ def _images_part(tree, out, spans):
     out.append('/-- iter_tiled_full_frame_data: its loops from the outermost to the innermost (frames are numbered in this order) -/\n'
                'def iterLoopNest : List String := [' + ', '.join(f'"{x}"' for x in nest) + ']')
     spans.append(loop)
+    # ---- get_image_coordinate_system: the attributes that decide, in the order they are looked at
+    fn = find_func(tree, 'get_image_coordinate_system')
+    body = strip_doc(fn.body)
+    if len(body) != 2:
+        raise Unsupported(f'get_image_coordinate_system has {len(body)} statements, 2 expected')
+    if not (isinstance(body[0], ast.If) and _src(body[0].test) == "not hasattr(dataset, 'FrameOfReferenceUID')" and _src(body[0].body[0]) == 'return None'):
+        raise Unsupported('get_image_coordinate_system: frame of reference test')
+    dec = body[1]
+    if not (isinstance(dec, ast.If) and isinstance(dec.test, ast.BoolOp) and isinstance(dec.test.op, ast.Or)
+            and _src(dec.body[0]) == 'return CoordinateSystemNames.SLIDE' and len(dec.body) == 1):
+        raise Unsupported('get_image_coordinate_system: slide test')
+    slide_marks = []
+    for v in dec.test.values:
+        if not (isinstance(v, ast.Call) and ast.unparse(v.func) == 'hasattr' and _src(v.args[0]) == 'dataset' and isinstance(v.args[1], ast.Constant)):
+            raise Unsupported(f'get_image_coordinate_system: slide marker {_src(v)}')
+        slide_marks.append(v.args[1].value)
+    out.append(lean_table('slideMarkers', 'List String', [f'"{m}"' for m in slide_marks],
+                          'get_image_coordinate_system: an image with a frame of reference and one of these attributes is in the SLIDE system'))
+    eb = dec.orelse
+    if len(eb) != 3:
+        raise Unsupported(f'get_image_coordinate_system: patient branch has {len(eb)} statements')
+    _expect(eb[0], "if 'ImagePositionPatient' in dataset: return CoordinateSystemNames.PATIENT", 'get_image_coordinate_system')
+    lp = eb[1]
+    if not (isinstance(lp, ast.For) and _src(lp.target) == 'kw' and isinstance(lp.iter, ast.List)):
+        raise Unsupported('get_image_coordinate_system: loop over the functional group sequences')
+    kws = [e.value for e in lp.iter.elts]
+    _expect(lp.body[0], 'fgs = dataset.get(kw)', 'get_image_coordinate_system')
+    _expect(lp.body[1], "if fgs is not None: if 'PlanePositionSequence' in fgs[0]: pps = fgs[0].PlanePositionSequence[0] "
+            "if 'ImagePositionPatient' in pps: return CoordinateSystemNames.PATIENT", 'get_image_coordinate_system')
+    out.append(lean_table('patientGroupSequences', 'List String', [f'"{k}"' for k in kws],
+                          'get_image_coordinate_system: the sequences whose FIRST item is searched for PlanePositionSequence[0].ImagePositionPatient'))
+    _expect(eb[2], 'return None', 'get_image_coordinate_system')
+    spans.append(fn)
     # ---- number of tiles per direction (compute_tile_positions_per_frame)
     fn = find_func(tree, 'compute_tile_positions_per_frame')
     a = _local_assign(fn, 'tiles_per_column')
